@@ -357,7 +357,25 @@ func returnRows(c *Ctx, fn *ssa.Function) []siteRow {
 			if !ok || i.Block() == f.Recover {
 				return
 			}
-			emit := func(vals []string, conds []string) {
+			var emit func(vals []string, conds []string)
+			emit = func(vals []string, conds []string) {
+				// a returned min(x, y) / max(x, y) of two operands is the two returns it stands for (`if y < x { return y };
+				// return x`): which of the spellings a function uses is not a difference
+				if len(vals) == 1 {
+					for _, kind := range []string{"min", "max"} {
+						if strings.HasPrefix(vals[0], kind+"(") && strings.HasSuffix(vals[0], ")") {
+							if ops := splitTop(vals[0][len(kind)+1 : len(vals[0])-1]); len(ops) == 2 {
+								x, y := ops[0], ops[1]
+								if kind == "max" {
+									x, y = y, x
+								}
+								emit([]string{x}, append(append([]string{}, conds...), canonGuard(true, "("+x+" < "+y+")")))
+								emit([]string{y}, append(append([]string{}, conds...), canonGuard(true, "("+y+" <= "+x+")")))
+								return
+							}
+						}
+					}
+				}
 				k := normRef(funcName(f) + " returns (" + strings.Join(vals, ", ") + ")")
 				if len(k) > 300 {
 					k = k[:300]
